@@ -123,6 +123,9 @@ func (s *ReceivePackSession) negotiate(updates map[string]*payload.Update) (stat
 		return nil, nil
 	} else {
 		for _, sum := range rpr.TableACKs {
+			if sum == nil {
+				return nil, fmt.Errorf("invalid receive pack response: null table sum")
+			}
 			delete(s.tablesToSend, string((*sum)[:]))
 		}
 		if s.candidateTables.Len() == 0 {
